@@ -18,7 +18,7 @@ def expand_sample(name, repo_root, verif_root):
         return _EXPANDED[key]
     src = os.path.join(verif_root, "samples", name)
     tag = hashlib.sha1(repo_root.encode()).hexdigest()[:8]
-    work = os.path.join(verif_root, "build", "samples", f"{name}-{tag}")
+    work = os.path.join(os.environ.get("VX_BUILD", os.path.join(verif_root, "build")), "samples", f"{name}-{tag}")
     os.makedirs(os.path.join(work, "src"), exist_ok=True)
     open(os.path.join(work, "Cargo.toml"), "w").write(open(os.path.join(src, "Cargo.toml.in")).read().replace("@REPO@", repo_root))
     shutil.copy(os.path.join(src, "src", "lib.rs"), os.path.join(work, "src", "lib.rs"))
